@@ -891,7 +891,7 @@ def _subpatterns(s, rng, maxlen=4):
 
 def gen_slices(rng, tier):
     big = tier != "quick"
-    full = 7 if big else 4
+    full = 8 if big else 4
     top = 12
     for n in range(0, top + 1):
         conts = [_pat(n)] if n else [""]
@@ -962,7 +962,7 @@ def gen_search(rng, tier):
             pats = _subpatterns(s, rng) + ([s[:8], s[1:9]] if n >= 9 else [])
             pairs = list(itertools.product(vals, vals))
             for t in pats:
-                keep = 1.0 if (n <= (8 if big else 5) and len(t) <= 2) else (0.4 if big else 0.06)
+                keep = 1.0 if (n <= (8 if big else 5) and len(t) <= 2) else (0.8 if big else 0.06)
                 for (a, b) in pairs:
                     if keep < 1.0 and rng.random() > keep:
                         continue
@@ -1121,7 +1121,7 @@ def _plant(rng, n, t, places):
 def gen_chunks(rng, tier):
     """data longer than one chunk of _findall_lsb0's reverse scan (increment = max(8192, 80*len(pat)))"""
     big = tier != "quick"
-    N = 110 if big else 26
+    N = 320 if big else 26
     for it in range(N):
         m = rng.choice([1, 2, 3, 8, 9, 16, 24, 100, 103, 128] if it % 3 else [8, 16, 103])
         t = rand_bits(rng, m) if rng.random() < 0.8 else "1" * m
@@ -1184,7 +1184,7 @@ def gen_seq(rng, tier):
     """histories on one object with the option toggled between the calls (the state is tracked with the
     plain-Python reference so that most steps are valid)"""
     big = tier != "quick"
-    for _ in range(6000 if big else 1500):
+    for _ in range(25000 if big else 1500):
         n = rng.randint(0, 12)
         s = rand_bits(rng, n)
         cur, steps = s, []
@@ -1227,7 +1227,7 @@ def gen_seq(rng, tier):
 
 def gen_random(rng, tier):
     big = tier != "quick"
-    for _ in range(40000 if big else 2500):
+    for _ in range(150000 if big else 2500):
         n = rng.choice([13, 14, 15, 16, 17, 20, 24, 31, 32, 33, 40])
         s = rand_bits(rng, n)
         pick = lambda: rng.choice([None, rng.randint(-n - 2, n + 2), rng.randint(0, n)])
